@@ -140,6 +140,14 @@ def finish(prop, tier, repo_root, db, results, lemma_results, wall, verbose=Fals
                   open(path, "w"), indent=1)
         violations.append((b.get("fn"), f"bounded:{b['name']}", path, 1,
                            {"where": f"bounded stand-in found {b['n_failures']} failing case(s): {b['failures'][:1]}"}))
+    cc = (extra or {}).get("crosscheck")
+    if cc:
+        print(f"[crosscheck] functions={cc['functions']} samples={cc['samples']} clause_evaluations={cc['clause_evaluations']} "
+              f"disagreements={len(cc['disagreements'])}")
+        for d in cc["disagreements"][:3]:
+            print(f"    ENGINE/CPYTHON DISAGREEMENT {d['fn']} clause {d['clause']} inputs {d['inputs']}")
+        if cc["disagreements"]:
+            crashes.append({"fn": "crosscheck", "crash": "a discharged clause is false natively on a sampled input"})
     for b in (extra or {}).get("bounded", []):
         print(f"[bounded] {b.get('name')}: evaluations={b.get('evaluations')} failures={b.get('n_failures')} bound={b.get('bound')}"
               + (f" ERROR {b.get('error')}" if b.get("error") else ""))
